@@ -173,6 +173,7 @@ HOSTILE_DESCRIPTIONS = ['quote " inside', 'ends with quote"', "ends with backsla
                         "x\n\u2028\ny"]
 
 
+VANISH = "value the serialiser maps to null"
 HOSTILE_ARGUMENT_NAMES = ["func", "self", "fn", "args", "kwargs", "cls", "key", "value", "node", "nodes", "default",
                           "type", "name", "resolver", "executor", "runtime", "then", "else_", "path", "field"]
 
@@ -290,6 +291,8 @@ class SchemaGen(object):
         for _ in range(rng.randint(0, 2)):
             sc = s.add(SType("scalar", self.fresh("Scalar"), self.desc()))
             sc.strict = self.chance(0.6)
+            # a serialiser may legitimately turn a value into null (e.g. an unrepresentable one)
+            sc.vanishing = (not sc.strict) and self.chance(0.6)
         n_inputs = rng.randint(1, 1 + self.size)
         shells = [s.add(SType("input", self.fresh("Input"), self.desc())) for _ in range(n_inputs)]
         for idx, it in enumerate(shells):
@@ -629,7 +632,8 @@ def build_code_schema(s, resolver_for=None, type_resolver_for=None, default_reso
                 ser, par, lit = strict_scalar_fns(st.name)
                 built[st.name] = cls(S.ScalarType, st.name)(st.name, ser, par, lit, description=st.description)
             else:
-                built[st.name] = cls(S.ScalarType, st.name)(st.name, lambda v: v, lambda v: v,
+                ser = (lambda v: None if v == VANISH else v) if getattr(st, "vanishing", False) else (lambda v: v)
+                built[st.name] = cls(S.ScalarType, st.name)(st.name, ser, lambda v: v,
                                               lambda node, variables=None: node.value, description=st.description)
         elif st.kind == "input":
             built[st.name] = cls(S.InputObjectType, st.name)(st.name, mk_input_fields(st), description=st.description)
